@@ -267,6 +267,7 @@ def symbolic_for(ex, s, it, st, k, ctl):
         ex.assign(s.target, elem(i.t), s_it, lambda s2: ex.ex(s.body, s2, after_body, inner), ctl)
     # (c) normal exit
     s_out = assume_invs(ex, invs, sh, ienv(n)).step("%s}" % lid)
+    s_out = after_loop_asserts(ex, lid, s_out, ienv(n))
     if s.orelse:
         return ex.ex(s.orelse, s_out, k, ctl)
     return k(s_out)
@@ -290,3 +291,17 @@ def exec_while(ex, s, st, k, ctl):
         lambda s2: k(s2.step("%s}" % lid)),
         ctl,
     )
+
+
+def after_loop_asserts(ex, lid, st, extra_env):
+    """`after_loop(lid, name, e)`: an assertion at the loop's normal exit - an obligation, then a fact"""
+    c = ex.current_contract
+    for name, e in c.after_loop.get(lid, []):
+        env = dict(st.env)
+        env.update(extra_env)
+        ps = st.copy(env=env, spec=True, old=ex.pre_state)
+        g = ex.spec_bool(e, ps)
+        ex.cx.oblige("%s/%s:after/%s" % (_short(c.target), lid, name), st, g,
+                     {"kind": "assertion", "function": c.target})
+        st = st.assume(g)
+    return st
